@@ -11,6 +11,14 @@ package merkle
 //@ trusted func leafHash(leaf []byte) (r []byte)
 //@   ensures fresh(r) && len(r) == 32 && content(r) == leafH(content(leaf))
 
+// Verified aspects: what goes into the hash function is the domain-separation prefix followed by the
+// WHOLE leaf (resp. both children), every byte of it, whatever the length.
+//@ aspect func leafHash(leaf []byte) (r []byte)
+//@   for C13
+//@   requires len(leafPrefix) == 1 && cap(leafPrefix) == 1 && leafPrefix[0] == 0
+//@   modifies *
+//@   atcall Sum requires [prefixThenTheWholeLeaf] len(bz) == 1 + len(leaf) && bz[0] == 0 && (forall i int :: 0 <= i && i < len(leaf) ==> bz[1 + i] == leaf[i])
+
 //@ trusted func innerHash(left []byte, right []byte) (r []byte)
 //@   ensures fresh(r) && len(r) == 32 && content(r) == innerH(content(left), content(right))
 
